@@ -456,7 +456,8 @@ def _optname(o):
     return ",".join("%s=%s" % kv for kv in sorted(o.items())) or "default"
 
 
-CAP = 6
+CAP = 8
+CAP_OPT = 2
 
 
 def t2(ctx):
@@ -495,14 +496,15 @@ def t2(ctx):
                 continue
             seen.add(mon)
             g = (mon, _optname(c["opts"]))
-            if reported.get(g, 0) >= CAP:
-                capped[g] = capped.get(g, 0) + 1
+            if reported.get(g, 0) >= CAP_OPT or reported.get(mon, 0) >= CAP:
+                capped[mon] = capped.get(mon, 0) + 1
                 continue
             w = dict(key=key, case=c)
             if ctx.fail(mon, w, detail="%s [%s]: %s" % (c["name"], _optname(c["opts"]), detail)):
                 reported[g] = reported.get(g, 0) + 1
+                reported[mon] = reported.get(mon, 0) + 1
     for g, n in sorted(capped.items()):
-        ctx.note("%d further violations of %s under options %s not listed (cap %d per monitor/options)" % (n, g[0], g[1], CAP))
+        ctx.note("%d further violations of %s not listed (cap: %d per monitor, %d per monitor and option set)" % (n, g, CAP, CAP_OPT))
 
 
 def replay(ctx, rec):
